@@ -808,4 +808,56 @@ theorem renameFull_perm (names : List String) (isTip : List Bool) {l l' : List (
     simp only []
     rw [renameLoop_perm index _ h hn hv]
 
+/-! ## CountEEMs as a whole -/
+
+mutual
+theorem eemNode_nodup (charOf : String → Char) (site : Nat) (p : Option Char) (eid : Int) (cm : Option Mut)
+    (acc : List (String × Mut)) (h : nodupKeys acc = true) :
+    ∀ t : T, nodupKeys (eemNode charOf site p eid cm acc t) = true
+  | .node d pp kids => by
+    unfold eemNode
+    by_cases hk : kids.isEmpty = true
+    · simp only [hk, if_true]
+      split
+      · exact nodupKeys_put _ _ _ h
+      · exact h
+    · simp only [hk, Bool.false_eq_true, if_false]
+      exact eemKids_nodup charOf site _ _ acc h kids
+theorem eemKids_nodup (charOf : String → Char) (site : Nat) (cur : Char) (cm : Option Mut)
+    (acc : List (String × Mut)) (h : nodupKeys acc = true) :
+    ∀ k : Kids, nodupKeys (eemKids charOf site cur cm acc k) = true
+  | [] => by unfold eemKids; exact h
+  | (e, t) :: r => by
+    unfold eemKids
+    exact eemKids_nodup charOf site cur cm _ (eemNode_nodup charOf site (some cur) e.id cm acc h t) r
+end
+
+theorem countEEMs_order (charOfAt : Nat → String → Char) (o₁ o₂ : List (String × Mut) → List (String × Mut))
+    (h₁ : ∀ l, (o₁ l).Perm l) (h₂ : ∀ l, (o₂ l).Perm l) (nsites : Nat) (t : T) :
+    countEEMs charOfAt o₁ nsites t = countEEMs charOfAt o₂ nsites t := by
+  unfold countEEMs
+  congr 1
+  funext acc j
+  have hn := eemNode_nodup (charOfAt j) j none 0 none [] (by simp [nodupKeys]) t
+  have hp : (o₁ (eemNode (charOfAt j) j none 0 none [] t)).Perm (o₂ (eemNode (charOfAt j) j none 0 none [] t)) :=
+    (h₁ _).trans (h₂ _).symm
+  exact eemLoop_perm acc hp (nodupKeys_perm (h₁ _).symm hn)
+
+/-! ## key-disjoint inserts -/
+
+theorem get_foldl_put {K V} [BEq K] [LawfulBEq K] : ∀ (l acc : List (K × V)) (k : K), nodupKeys l = true →
+    get (l.foldl (fun fc e => put fc e.1 e.2) acc) k = (get l k).or (get acc k)
+  | [], acc, k, _ => by simp [get]
+  | (a, v) :: t, acc, k, hn => by
+    have hn' := hn
+    simp only [nodupKeys, Bool.and_eq_true, Bool.not_eq_true'] at hn'
+    rw [List.foldl_cons, get_foldl_put t _ k hn'.2, get_put]
+    by_cases hk : a = k
+    · subst hk
+      have hnone : List.lookup a t = none := lookup_none_of_not_any t a (by simp [hn'.1])
+      simp [get, hnone]
+    · have h1 : (a == k) = false := by simpa using hk
+      have h2 : (k == a) = false := by simpa using fun h => hk h.symm
+      simp [get, h1, List.lookup_cons, h2]
+
 end Gotree.C18
